@@ -297,3 +297,94 @@ Example C09_two_identical_half_binary64_ex :
   /\ @predict_win Bits.binary64 N beta [t; t]
      = [Bits.b64_of_bits 4602678819172646912%Z; Bits.b64_of_bits 4602678819172646912%Z].
 Proof. exact (conj (proj1 FloatInst.ex_hyps) (conj (proj2 FloatInst.ex_hyps) FloatInst.ex_value)). Qed.
+
+(** ** Range of [predict_win] on the doubles the code computes (binary64, no rounding slack)
+
+    On Flocq's binary64 with the IEEE 754 round-to-nearest-even operations ([FloatInst.B64Num]):
+    every element of [predict_win beta teams] is a FINITE double whose real value is in [0,1].
+    Premises: libm's erfc returns, on every finite argument, a finite double with value in [0,2];
+    2 <= number of teams <= 2^20; every argument handed to the normal CDF (the quotient
+    (mu_a - mu_b) / pair_scale, exactly the ones the code computes: one in the two-team branch,
+    one per ordered pair of distinct positions in the general branch) is finite, i.e. did not
+    overflow and is not NaN.  Nothing is assumed about exp, [x ** 2], inv_cdf, sqrt accuracy.
+    All other finiteness is derived: 0.5 * erfc(..) is in [0,1] (rounding is monotone and fixes
+    0 and 1); CPython's Neumaier-compensated [sum()] ([py_sum]) of the n-1 CDF values of a row has
+    running sum in [0, n-1] and a compensation of relative size <= 16 u (n-1), u = 2^-53, so the
+    result is in [0, n]; n <= n(n-1)/2 for n >= 3, hence the rounded quotient is <= 1. *)
+From OSV Require Order.
+From OSV.Lemmas Require FloatRangeL.
+
+Theorem C09_predict_win_range_binary64 :
+  forall (f_exp f_erfc f_pow2 f_icdf : Bits.binary64 -> Bits.binary64),
+  (forall x : Bits.binary64, Binary.is_finite 53%Z 1024%Z x = true ->
+     Binary.is_finite 53%Z 1024%Z (f_erfc x) = true /\ 0 <= Binary.B2R 53%Z 1024%Z (f_erfc x) <= 2) ->
+  forall (beta : Bits.binary64) (teams : list (list (rating Bits.binary64))),
+  (2 <= length teams)%nat -> (Z.of_nat (length teams) <= 2 ^ 20)%Z ->
+  match teams with
+  | [ta; tb] =>
+      Binary.is_finite 53%Z 1024%Z
+        (@fdiv Bits.binary64 (FloatInst.B64Num f_exp f_erfc f_pow2 f_icdf)
+           (@fsub Bits.binary64 (FloatInst.B64Num f_exp f_erfc f_pow2 f_icdf)
+              (fst (@agg Bits.binary64 (FloatInst.B64Num f_exp f_erfc f_pow2 f_icdf) ta))
+              (fst (@agg Bits.binary64 (FloatInst.B64Num f_exp f_erfc f_pow2 f_icdf) tb)))
+           (@pair_scale Bits.binary64 (FloatInst.B64Num f_exp f_erfc f_pow2 f_icdf) beta (length ta + length tb)%nat
+              (@agg Bits.binary64 (FloatInst.B64Num f_exp f_erfc f_pow2 f_icdf) ta)
+              (@agg Bits.binary64 (FloatInst.B64Num f_exp f_erfc f_pow2 f_icdf) tb))) = true
+  | _ =>
+      forall (ro : list (rating Bits.binary64) * list (list (rating Bits.binary64))) (tb : list (rating Bits.binary64)),
+        In ro (Order.rows teams) -> In tb (snd ro) ->
+        Binary.is_finite 53%Z 1024%Z
+          (@fdiv Bits.binary64 (FloatInst.B64Num f_exp f_erfc f_pow2 f_icdf)
+             (@fsub Bits.binary64 (FloatInst.B64Num f_exp f_erfc f_pow2 f_icdf)
+                (fst (@agg Bits.binary64 (FloatInst.B64Num f_exp f_erfc f_pow2 f_icdf) (fst ro)))
+                (fst (@agg Bits.binary64 (FloatInst.B64Num f_exp f_erfc f_pow2 f_icdf) tb)))
+             (@pair_scale Bits.binary64 (FloatInst.B64Num f_exp f_erfc f_pow2 f_icdf) beta (length teams)
+                (@agg Bits.binary64 (FloatInst.B64Num f_exp f_erfc f_pow2 f_icdf) (fst ro))
+                (@agg Bits.binary64 (FloatInst.B64Num f_exp f_erfc f_pow2 f_icdf) tb))) = true
+  end ->
+  Forall (fun p : Bits.binary64 =>
+            Binary.is_finite 53%Z 1024%Z p = true /\ 0 <= Binary.B2R 53%Z 1024%Z p <= 1)
+    (@predict_win Bits.binary64 (FloatInst.B64Num f_exp f_erfc f_pow2 f_icdf) beta teams).
+Proof. exact FloatRangeL.predict_win_range_b64. Qed.
+Print Assumptions C09_predict_win_range_binary64.
+
+(** non-vacuity.  Stand-ins for the libm parameters: erfc := the step function 2 / 1 / 0 on
+    negative / zero / positive arguments (finite, in [0,2], as the premise requires; so the CDF is
+    the step 0 / 0.5 / 1), [x ** 2 := x * x]; exp and inv_cdf are not used.  beta = 25/6.
+    Three teams [(25.0, 25/3)], [(30.5, 7.25)], [(20.0, 5.0); (22.0, 4.0)] (general branch; the
+    computed result is [0.0; 1/3; 2/3] rounded), and the first two of them (two-team branch). *)
+Example C09_predict_win_range_binary64_ex :
+  let N := FloatInst.B64Num (fun x => x)
+             (fun x => match Bits.b64_compare x (Binary.B754_zero 53%Z 1024%Z false) with
+                       | Some Lt => FloatInst.b64_of_Z 2 | Some Gt => FloatInst.b64_of_Z 0
+                       | _ => FloatInst.b64_of_Z 1 end)
+             (fun x => Bits.b64_mult BinarySingleNaN.mode_NE x x) (fun x => x) in
+  let t1 := [mkRating (Bits.b64_of_bits 4627730092099895296%Z) (Bits.b64_of_bits 4620880867666602667%Z) 0%Z NmNone] in
+  let t2 := [mkRating (Bits.b64_of_bits 4629278204471803904%Z) (Bits.b64_of_bits 4619848792751996928%Z) 1%Z NmNone] in
+  let t3 := [mkRating (FloatInst.b64_of_Z 20) (FloatInst.b64_of_Z 5) 2%Z NmNone;
+             mkRating (FloatInst.b64_of_Z 22) (FloatInst.b64_of_Z 4) 3%Z NmNone] in
+  let beta := Bits.b64_of_bits 4616377268039232171%Z in
+  Forall (fun p : Bits.binary64 =>
+            Binary.is_finite 53%Z 1024%Z p = true /\ 0 <= Binary.B2R 53%Z 1024%Z p <= 1)
+    (@predict_win Bits.binary64 N beta [t1; t2; t3])
+  /\ Forall (fun p : Bits.binary64 =>
+            Binary.is_finite 53%Z 1024%Z p = true /\ 0 <= Binary.B2R 53%Z 1024%Z p <= 1)
+    (@predict_win Bits.binary64 N beta [t1; t2])
+  /\ map Bits.bits_of_b64 (@predict_win Bits.binary64 N beta [t1; t2; t3])
+     = [0%Z; 4599676419421066581%Z; 4604180019048437077%Z].
+Proof.
+  intros N t1 t2 t3 beta. split; [|split].
+  - apply C09_predict_win_range_binary64.
+    + exact FloatRangeL.ex_erfc_ok.
+    + repeat constructor.
+    + vm_compute. intros H; discriminate H.
+    + intros ro tb Hro Htb. cbv [Order.rows Order.rows_aux rev app In] in Hro.
+      destruct Hro as [<-|[<-|[<-|[]]]]; cbv [snd In] in Htb; destruct Htb as [<-|[<-|[]]];
+        vm_compute; reflexivity.
+  - apply C09_predict_win_range_binary64.
+    + exact FloatRangeL.ex_erfc_ok.
+    + repeat constructor.
+    + vm_compute. intros H; discriminate H.
+    + vm_compute. reflexivity.
+  - vm_compute. reflexivity.
+Qed.
